@@ -99,7 +99,7 @@ type CallEvent struct {
 	Args   []Val
 	Res    []Val
 	Seq    int
-	After  *State // state right after the call returned (only recorded for assumed interface contracts)
+	After  *State // state right after the call returned (recorded for calls replaced by a contract)
 }
 
 type State struct {
